@@ -463,16 +463,70 @@ func ruleBLSVerify(c *Ctx) {
 				}
 			case *ast.ExprStmt:
 				c.bad(key, call.Pos(), "verification result is discarded")
-			case *ast.AssignStmt:
-				if len(p.Lhs) == 1 {
-					if id, ok := p.Lhs[0].(*ast.Ident); ok && id.Name == "_" {
-						c.bad(key, call.Pos(), "verification result is discarded")
+			default:
+				// stored in a boolean local, possibly combined (`ok := skip || Verify(...)`): the local must govern a refusal
+				var as *ast.AssignStmt
+				for q := ast.Node(call); q != nil; q = parents[q] {
+					if a, ok := q.(*ast.AssignStmt); ok {
+						as = a
+						break
+					}
+					if _, ok := q.(ast.Stmt); ok {
 						break
 					}
 				}
-				c.ok(key, call.Pos(), "result stored")
-			default:
-				c.unm(key, call.Pos(), "result used in %T", par)
+				if as == nil || len(as.Lhs) != 1 {
+					c.unm(key, call.Pos(), "result used in %T", par)
+					break
+				}
+				id, ok := as.Lhs[0].(*ast.Ident)
+				if !ok || id.Name == "_" {
+					c.bad(key, call.Pos(), "verification result is discarded")
+					break
+				}
+				obj := info.ObjectOf(id)
+				tested, refuses := false, false
+				ast.Inspect(fd.Body, func(k ast.Node) bool {
+					is, ok := k.(*ast.IfStmt)
+					if !ok || is.Pos() < as.Pos() {
+						return true
+					}
+					for _, leaf := range flattenBool(is.Cond, token.LAND) {
+						if ue, ok := ast.Unparen(leaf).(*ast.UnaryExpr); ok && ue.Op == token.NOT {
+							if lid, ok := ast.Unparen(ue.X).(*ast.Ident); ok && info.ObjectOf(lid) == obj {
+								tested = true
+								if refusalBlock(info, is.Body, fd) {
+									refuses = true
+								}
+							}
+						}
+					}
+					return true
+				})
+				switch {
+				case refuses:
+					c.ok(key, call.Pos(), "result kept in %s; `!%s` refuses", id.Name, id.Name)
+				case tested:
+					c.bad(key, call.Pos(), "the verification result is kept in %s, but `!%s` does not end the path with an error / false / REJECT", id.Name, id.Name)
+				default:
+					// returned or handed on?
+					returned := false
+					ast.Inspect(fd.Body, func(k ast.Node) bool {
+						if r, ok := k.(*ast.ReturnStmt); ok {
+							for _, e := range r.Results {
+								if mentionsObj(info, e, obj) {
+									returned = true
+								}
+							}
+						}
+						return true
+					})
+					if returned {
+						c.ok(key, call.Pos(), "result kept in %s and returned", id.Name)
+					} else {
+						c.bad(key, call.Pos(), "the verification result is stored in %s and never tested", id.Name)
+					}
+				}
 			}
 			return true
 		})
